@@ -102,6 +102,7 @@ static Plan plan_C01(Rng& r, const std::string& tier) {
 			int k = r.range(1, 3);
 			for (int i = 0; i < k; ++i) {
 				if (r.chance(1, 2)) g.push(mk(c, "et_incl_all", {a, b, long(r.below(100000))}));
+				else if (r.chance(1, 12)) g.push(mk(c, "et_incl", {a, b, 0, 2}));        // CheckInclusion(smaller, bigger) with default parameters
 				else g.push(mk(c, "et_incl", {a, b, long(r.below(100) < 88 ? r.below(8) : 8 + r.below(5)), long(r.below(2))}));
 				if (r.chance(1, 6)) g.push(mk(c, "et_incl", {b, a, long(r.below(8)), long(r.below(2))}));
 			}
